@@ -101,3 +101,18 @@ package resolver
 //@   ensures [first-key-of-the-requested-relationship] isNilIface(result.2) ==> did(call publicKeyOf #1) && result.1 == ret(call publicKeyOf #1).0 && isNilIface(ret(call publicKeyOf #1).1)
 //@        && arg(call publicKeyOf #1, 0) == ret(call resolveRelationships #1).0[0].VerificationMethod && arg(call resolveRelationships #1, 1) == relationType
 //@        && arg(call resolveRelationships #1, 0) == ret(call (DIDResolver).Resolve #1).0 && same(arg(call (DIDResolver).Resolve #1, 1), id)
+
+// ---- C19: DID documents from peers / remote servers reach go-did only without null verification methods ----
+// go-did (a dependency, not verified) dereferences null entries of verificationMethod while resolving
+// relationship references. ASSUMED: json.Unmarshal into a did.Document does not panic otherwise.
+//@ func UnmarshalDocument
+//@   prop C19
+//@   safety
+//@   modifies *document
+//@   requires document != nil
+//@   loop 1 invariant forall k int :: 0 <= k && k < $i ==> string(methods[k]) != "null"
+//@   call json.Unmarshal #3 requires [go-did-sees-the-document-only-after-the-null-entry-screen]
+//@        isNilIface(ret(call json.Unmarshal #1)) && arg(call json.Unmarshal #1, 0) == data && arg(0) == data && arg(1) == any(document)
+//@        && arg(call json.Unmarshal #2, 0) == []byte(raw.VerificationMethod)
+//@        && ( !isNilIface(ret(call json.Unmarshal #2)) || ($done1 && forall k int :: 0 <= k && k < len(methods) ==> string(methods[k]) != "null") )
+//@   ensures [success-only-through-go-did] isNilIface(result) ==> did(call json.Unmarshal #3) && isNilIface(ret(call json.Unmarshal #3))
